@@ -184,6 +184,9 @@ class ControlledPool(object):
         if ch is not self._record_owner:
             # a pool that outlived the execution that created it: it gets a fresh record in the new execution
             self._order = []
+            if not self._running and self._next >= len(self._queue):
+                # nothing of the earlier execution is pending: chunk numbers start at 0 again, as the new record's do
+                self._queue, self._next, self._done = [], 0, set()
             self._record = {"k": self._k, "chunks": [], "apis": [], "completion": self._order, "reused_pool": True}
             ch.orders.append(self._record)
             self._record_owner = ch
@@ -194,6 +197,7 @@ class ControlledPool(object):
     def _submit(self, api, func, items, star, chunksize=None, on_chunk=None):
         if self._closed:
             raise ValueError("Pool not running")
+        self._chooser       # a pool that outlived its execution gets its record in the current one BEFORE chunks are logged
         items = list(items)
         n = len(items)
         if chunksize:
@@ -238,10 +242,14 @@ class ControlledPool(object):
         q = cands[self._chooser.choose(len(cands))]
         self._running.remove(q)
         b, ci, ch = self._queue[q]
-        for t in ch:
-            # a task's arguments and its result cross a process boundary in the real pool: exact copies both ways
-            it = _boundary(b["items"][t])
-            b["results"][t] = _boundary(b["func"](*it) if b["star"] else b["func"](it))
+        # arguments and results cross a process boundary in the real pool, one message per CHUNK in each direction:
+        # the worker unpickles the chunk's arguments, runs its tasks one after the other and pickles the list of
+        # their results only when the last one is done (a result that aliases per-process scratch memory is
+        # overwritten by the next task of the same chunk)
+        its = _boundary([b["items"][t] for t in ch])
+        raw = [(b["func"](*it) if b["star"] else b["func"](it)) for it in its]
+        for t, r in zip(ch, _boundary(raw)):
+            b["results"][t] = r
         b["done_order"].append(ci)
         self._done.add(q)
         self._order.append(q)
